@@ -119,6 +119,10 @@ func Load(o LoadOpts) (*World, error) {
 			ov, subs = w.canonIncDec(o.Overlay)
 			kind := "x += 1 written x++ in "
 			if len(subs) == 0 {
+				ov, subs = w.foldFieldInits(o.Overlay)
+				kind = "an empty struct literal filled field by field right away is the keyed literal again in "
+			}
+			if len(subs) == 0 {
 				ov, subs = w.restoreForClauses(o.Overlay)
 				kind = "an initialisation followed by a condition-only loop that ends in the step is a three-clause loop again in "
 			}
